@@ -20,6 +20,8 @@ model of vlib/models/c05_response.py says what the server must have received:
 """
 
 import asyncio
+import collections
+import types
 import datetime
 import io
 import itertools
@@ -40,6 +42,7 @@ BUDGET = {'quick': 12, 'thorough': 120}
 # proposed known_findings.json keys (narrow classifiers in classify())
 K_WSGI_LINE = 'wsgi-bodiless-status-matched-by-full-line'
 K_MEDIA_CT = 'typeless-status-media-sets-content-type'
+K_STATUS_SUBCLASS = 'wsgi-str-subclass-status-line-passed-through'
 MAX_EVENTS = 500      # a response of at most ~10 chunks never needs more; stops runaway streams
 
 
@@ -383,6 +386,55 @@ class StrSub(str):
     """A str subclass: the server must still get a *native* str (PEP 3333: type(v) is str)."""
 
 
+class StrSubOdd(str):
+    """A str subclass whose __str__/__format__/__repr__ differ from its value."""
+
+    def __str__(self):
+        return 'via-__str__:' + str.__str__(self)
+
+    def __format__(self, spec):
+        return 'via-__format__'
+
+    def __repr__(self):
+        return 'via-__repr__'
+
+
+class LazyText:
+    """A lazy (translation-style) string: not a str, offers encode() and __str__ like one."""
+
+    def __init__(self, value):
+        self._value = value
+
+    def __str__(self):
+        return self._value
+
+    def encode(self, encoding='utf-8', errors='strict'):
+        return self._value.encode(encoding, errors)
+
+    def __len__(self):
+        return len(self._value)
+
+
+TEXT_AS = ['strsub', 'strsub_odd', 'userstring', 'lazy', 'bytes']
+
+
+def text_object(value, text_as):
+    """resp.text accepts str, and by EAFP on .encode() every string-like object; bytes pass through."""
+    if text_as is None:
+        return value
+    if text_as == 'strsub':
+        return StrSub(value)
+    if text_as == 'strsub_odd':
+        return StrSubOdd(value)
+    if text_as == 'userstring':
+        return collections.UserString(value)
+    if text_as == 'lazy':
+        return LazyText(value)
+    if text_as == 'bytes':
+        return value.encode('utf-8')
+    raise ValueError(text_as)
+
+
 class Stringable:
     def __init__(self, text):
         self.text = text
@@ -415,6 +467,82 @@ NONSTR_OPS = {
     'raw_cookie_strsub': (lambda r: r.append_header('Set-Cookie', StrSub('rs=1; Path=/')), {'set-cookie': 'rs=1; Path=/'}),
     'prop_int': (lambda r: setattr(r, 'retry_after', 120), {'retry-after': '120'}),
 }
+
+def _snap(mutate):
+    """The app reads resp.headers (documented: a NEW COPY on every access) and does what it likes with it."""
+    def op(r):
+        r.set_header('X-Keep', 'kept')
+        r.set_headers({'X-Keep2': 'k2'})
+        snap = r.headers
+        mutate(snap)
+    return op
+
+
+def _snap_rekey(h):
+    for k in list(h):
+        h[k.title()] = h.pop(k)
+    h['Content-Length'] = '99999'
+    h['Content-Type'] = 'x-audit/copy'
+
+
+def _then_mutate_dict(r):
+    d = {'X-Arg': 'a1', 'X-Arg2': 'a2'}
+    r.set_headers(d)
+    d['X-Arg'] = 2.5
+    d['X-Arg3'] = object()
+    del d['X-Arg2']
+
+
+def _then_mutate_list(r):
+    pairs = [('X-Larg', 'l1'), ['X-Larg2', 'l2']]
+    r.set_headers(pairs)
+    pairs[1][1] = None
+    pairs.append(('X-Larg3', 3))
+    vary = ['Accept']
+    r.vary = vary
+    vary.append('X-Later')
+    cc = ['no-store']
+    r.cache_control = cc
+    cc.clear()
+
+
+SNAP_KEEP = {'x-keep': 'kept', 'x-keep2': 'k2'}
+# argument objects used a second time / mutated after the call, snapshots mutated, one-shot iterables, Mappings.
+# name -> (callable(resp), {lower-case header name: exact value, or None = must NOT be in the response})
+NONSTR_OPS.update({
+    'snap_add_float': (_snap(lambda h: h.update({'x-timing': 0.25, 'x-keep': 1})),
+                       dict(SNAP_KEEP, **{'x-timing': None})),
+    'snap_add_upper_nonlatin': (_snap(lambda h: h.update({'X-Upper': 'u', 'x-note': '\u043f\u0440\u0438\u0432\u0435\u0442',
+                                                          'x-ctl': 'a\r\nInjected: 1'})),
+                                dict(SNAP_KEEP, **{'x-upper': None, 'x-note': None, 'x-ctl': None, 'injected': None})),
+    'snap_rekey': (_snap(_snap_rekey), dict(SNAP_KEEP)),
+    'snap_clear': (_snap(lambda h: h.clear()), dict(SNAP_KEEP)),
+    'snap_pop_each': (_snap(lambda h: [h.pop(k) for k in list(h)]), dict(SNAP_KEEP)),
+    'snap_setdefault_none': (_snap(lambda h: (h.setdefault('x-none', None), h.setdefault('content-length', None),
+                                              h.setdefault('content-type', None))), dict(SNAP_KEEP, **{'x-none': None})),
+    'snap_twice': (_snap(lambda h: h.__setitem__('x-first', b'bytes')), dict(SNAP_KEEP, **{'x-first': None})),
+    'arg_dict_mutated_after': (_then_mutate_dict, {'x-arg': 'a1', 'x-arg2': 'a2', 'x-arg3': None}),
+    'arg_list_mutated_after': (_then_mutate_list, {'x-larg': 'l1', 'x-larg2': 'l2', 'x-larg3': None,
+                                                   'vary': 'Accept', 'cache-control': 'no-store'}),
+    'set_headers_generator': (lambda r: r.set_headers((k, v) for k, v in [('X-G1', 'g1'), ('X-G2', 2)]),
+                              {'x-g1': 'g1', 'x-g2': '2'}),
+    'set_headers_iterator_of_lists': (lambda r: r.set_headers(iter([['X-I1', 'i1'], ('X-I2', StrSubOdd('i2'))])),
+                                      {'x-i1': 'i1', 'x-i2': 'via-__str__:i2'}),
+    'set_headers_mappingproxy': (lambda r: r.set_headers(types.MappingProxyType({'X-M1': 'm1', 'X-M2': 0})),
+                                 {'x-m1': 'm1', 'x-m2': '0'}),
+    'set_headers_userdict': (lambda r: r.set_headers(collections.UserDict({'X-U1': 'u1'})), {'x-u1': 'u1'}),
+    'set_headers_ordereddict': (lambda r: r.set_headers(collections.OrderedDict([('X-O1', 'o1'), ('x-o1', 'o2')])),
+                                {'x-o1': 'o2'}),
+    'vary_generator_cc_tuple': (lambda r: (setattr(r, 'vary', (v for v in ['Accept', 'X-V'])),
+                                           setattr(r, 'cache_control', ('private', 'max-age=1'))),
+                                {'vary': 'Accept, X-V', 'cache-control': 'private, max-age=1'}),
+    'set_strsub_odd': (lambda r: r.set_header(StrSubOdd('X-Odd'), StrSubOdd('o')), {'x-odd': 'via-__str__:o'}),
+    'append_strsub_odd': (lambda r: (r.append_header('X-Odd2', StrSubOdd('a')), r.append_header('X-Odd2', StrSubOdd('b'))),
+                          {'x-odd2': 'via-__str__:a, via-__str__:b'}),
+    'append_userstring': (lambda r: (r.append_header('X-US', collections.UserString('u1')),
+                                     r.append_header('X-US', collections.UserString('u2'))), {'x-us': 'u1, u2'}),
+    'set_lazy': (lambda r: r.set_header('X-Lazy', LazyText('lz')), {'x-lazy': 'lz'}),
+})
 
 # name -> (callable(resp), lower-case header names that must then be present)
 HEADER_OPS = {
@@ -588,7 +716,7 @@ def fill(resp, r, obs):
     order = r.get('order') or ['text', 'data', 'media', 'stream', 'sse']
     for what in order:
         if what == 'text' and r.get('text') is not None:
-            resp.text = r['text']
+            resp.text = text_object(r['text'], r.get('text_as'))
         elif what == 'data' and r.get('data') is not None:
             resp.data = r['data']
         elif what == 'media' and r.get('media', ['unset'])[0] == 'set':
@@ -608,6 +736,15 @@ def fill(resp, r, obs):
             resp.sse = make_emitter(r['sse'], log)
     if r.get('render_fail'):
         apply_render_fail(resp, r, obs)
+    if r.get('via', 'responder') != 'responder':
+        run_late(resp)
+
+
+def run_late(resp):
+    """Operations after everything else was assigned (audit/logging code looking at the finished response);
+    for a responder-filled response they run in process_response."""
+    for name in CUR['r'].get('late') or []:
+        NONSTR_OPS[name][0](resp)
 
 
 def _guarded_fill(resp):
@@ -685,12 +822,16 @@ class WMiddleware:
     def process_response(self, req, resp, resource, req_succeeded):
         if CUR['r'].get('via') == 'mw':
             _guarded_fill(resp)
+        elif CUR['r'].get('via', 'responder') == 'responder':
+            run_late(resp)
 
 
 class AMiddleware:
     async def process_response(self, req, resp, resource, req_succeeded):
         if CUR['r'].get('via') == 'mw':
             _guarded_fill(resp)
+        elif CUR['r'].get('via', 'responder') == 'responder':
+            run_late(resp)
 
 
 def w_sink(req, resp, **kw):
@@ -779,9 +920,14 @@ def summary(res, stack):
     return out
 
 
-def classify(kind, r):
+def classify(kind, r, problem=None):
     """Narrow classifiers for defects recorded in known_findings.json."""
     code = M.status_code(r['status'])
+    if r['stack'] == 'wsgi' and r['status'][0] == 'strsub' and ' ' in r['status'][1]:
+        # falcon/util/misc.py code_to_http_status returns a str that contains a space unchanged: an instance of a
+        # str subclass reaches start_response as it is (wsgiref: AssertionError 'Status must be of type str')
+        if (kind == 'protocol-wsgi' and str(problem).startswith('status is not a native str')) or kind == 'status-line':
+            return K_STATUS_SUBCLASS
     custom_line = (r['stack'] == 'wsgi' and (r['status'][0] == 'line' or (r['status'][0] == 'bytes' and
                                                                           ' ' in r['status'][1]))
                    and code in M.BODILESS and
@@ -905,7 +1051,7 @@ def judge(rec, r, res, obs):
             wit = {'recipe': compact(orig), 'got': summary(res, stack)}
         w = dict(wit)
         w.update(extra)
-        rec.violation(kind, w, known_key=classify(kind, r))
+        rec.violation(kind, w, known_key=classify(kind, r, extra.get('problem')))
 
     def mon(name):
         rec.count('mon.' + name)
@@ -1037,17 +1183,23 @@ def judge(rec, r, res, obs):
     # ---- F. cookies and other headers reach the server
     want_names = set()
     want_exact = {}
-    for name in r.get('headers', []):
+    for name in list(r.get('headers', [])) + list(r.get('late') or []):     # in execution order: a later set wins
         if name in HEADER_OPS:
             want_names.update(HEADER_OPS[name][1])
+            for n in HEADER_OPS[name][1]:
+                want_exact.pop(n, None)
         else:
             want_exact.update(NONSTR_OPS[name][1])
+    if r.get('late'):
+        mon('late_ops_leave_response_alone')
     if want_exact:
         # the pairs themselves (native str / bytes) are judged by the drivers' monitors (res.problems above)
         mon('nonstr_header_value_as_str')
         for n, v in sorted(want_exact.items()):
             got = res.header_values(n)
-            if n == 'set-cookie':
+            if v is None:
+                ok = got == []          # written only into a snapshot / an argument object after the call
+            elif n == 'set-cookie':
                 ok = v in got
             else:
                 ok = got == [v]
@@ -1137,6 +1289,8 @@ def note_coverage(rec, r, res, obs):
     rec.count('status_kind.' + r['status'][0])
     rec.count('rc.' + r.get('rc', 'std'))
     rec.count('via.' + r.get('via', 'responder'))
+    if r.get('text_as') and src == 'text':
+        rec.count('text_as.%s.%s.%s' % (r['text_as'], stack, r.get('rc', 'std')))
     if r.get('fw'):
         rec.count('wsgi.file_wrapper')
     if r.get('prerender') is not None:
@@ -1192,7 +1346,7 @@ STATUSES = [
     ['digits', '204'], ['digits', '304'], ['digits', '503'], ['digits', '299'], ['digits', '799'],
     ['bytes', '200 OK'], ['bytes', '404 Not Found'], ['bytes', '702 Emacs'], ['bytes', '204 No Content'],
     ['bytes', '304 Unchanged'], ['bytes', '200'], ['bytes', '204'], ['bytes', '304'], ['bytes', '101'],
-    ['bytes', '299'], ['bytes', '598'],
+    ['bytes', '299'], ['bytes', '598'], ['strsub', '201 Created'], ['strsub', '404'],
     ['enum', 418], ['enum', 204], ['enum', 304], ['enum', 100], ['enum', 200],
 ]
 METHODS = ['GET', 'HEAD', 'POST', 'OPTIONS']
@@ -1293,6 +1447,64 @@ def decor_cases(stack):
                 yield dict(base, headers=sorted(HEADER_OPS)[:12], cookies=sorted(COOKIE_OPS))
                 yield dict(base, headers=[h for h in sorted(HEADER_OPS)[12:] if h != 'viewable_as'],
                            cookies=sorted(COOKIE_OPS), media=['set', [1]])
+
+
+LATE_OPS = sorted(k for k in NONSTR_OPS if k.startswith(('snap_', 'arg_')))
+
+
+def late_cases(stack):
+    """After the response was completely filled in, code reads resp.headers / reuses argument objects and
+    mutates them: x way of filling in x body source x preset headers x method x response class."""
+    kinds = WSGI_KINDS if stack == 'wsgi' else ASGI_KINDS
+    n = 0
+    for op in LATE_OPS:
+        for via in ('responder', 'mw', 'sink'):
+            for src in ('text', 'data', 'media', 'stream', 'none'):
+                for ct, cl in PRESETS[:1] + PRESETS[3:]:
+                    for method in ('GET', 'HEAD'):
+                        n += 1
+                        r = {'stack': stack, 'method': method, 'status': [['int', 200], ['enum', 204], ['int', 404]][n % 3],
+                             'text': None, 'data': None, 'media': ['unset'], 'stream': None, 'sse': None,
+                             'ct': ct, 'cl': cl, 'via': via, 'rc': RESP_CLASSES[n % 3], 'late': [op]}
+                        if src == 'text':
+                            r['text'] = GRID_TEXT
+                        elif src == 'data':
+                            r['data'] = GRID_DATA
+                        elif src == 'media':
+                            r['media'] = ['set', GRID_MEDIA]
+                            if ct is not None:
+                                r['ct'] = [ct[0], 'application/json; charset=UTF-8']
+                        elif src == 'stream':
+                            r['stream'] = {'kind': kinds[n % len(kinds)], 'chunks': [b'ab', b'c'], 'raise_at': None}
+                        if n % 4 == 0:
+                            r['headers'] = ['set_ascii', LATE_OPS[n % len(LATE_OPS)]]
+                            r['cookies'] = ['basic', 'raw']
+                        yield r
+    yield {'stack': stack, 'method': 'GET', 'status': ['int', 200], 'text': 't', 'data': None, 'media': ['unset'],
+           'stream': None, 'sse': None, 'ct': None, 'cl': None, 'late': list(LATE_OPS)}
+
+
+TEXT_VALUES = [GRID_TEXT, '', 'plain ascii', 'x' * 8193]
+
+
+def text_object_cases(stack):
+    """resp.text as every string-like type x response class (stock: inlined rendering; custom: render_body())."""
+    n = 0
+    for text_as in TEXT_AS:
+        for rc in RESP_CLASSES:
+            for value in TEXT_VALUES:
+                for lower in (False, True):
+                    for method in ('GET', 'HEAD', 'POST'):
+                        n += 1
+                        r = {'stack': stack, 'method': method, 'status': [['int', 200], ['line', '404 Not Found']][n % 2],
+                             'text': value, 'text_as': text_as, 'data': GRID_DATA if lower else None,
+                             'media': ['set', GRID_MEDIA] if lower else ['unset'], 'stream': None, 'sse': None,
+                             'ct': None if n % 3 else ['prop', 'text/plain; charset=utf-8'],
+                             'cl': None if n % 4 else ['prop', 1], 'rc': rc,
+                             'via': ('responder', 'mw', 'sink')[n % 3]}
+                        if n % 5 == 0:
+                            r['pre'] = [['render']] if n % 2 else [['media', STALE['media']], ['render']]
+                        yield r
 
 
 def fault_cases(stack, big):
@@ -1556,6 +1768,10 @@ def gen_recipe(rng):
             rng.shuffle(r['headers'])
         if 'downloadable_as' in r['headers'] and 'viewable_as' in r['headers']:
             r['headers'].remove('viewable_as')
+    if rng.random() < 0.2:
+        r['late'] = rng.sample(LATE_OPS, rng.randint(1, 2))
+    if r['text'] is not None and rng.random() < 0.4:
+        r['text_as'] = rng.choice(TEXT_AS)
     if rng.random() < 0.3:
         r['cookies'] = rng.sample(sorted(COOKIE_OPS), rng.randint(1, 3))
     r['rc'] = rng.choice(RESP_CLASSES)
@@ -1618,6 +1834,10 @@ def run(rec):
         'after http.disconnect an SSE emitter may be abandoned early; a terminating body event is still owed',
         'a filling-in history may call the public render_body() at any point; only the last assignment of each '
         'attribute decides the body (vlib/models/c05_response.py effective())',
+        'resp.headers is documented to return a new copy on every access and header-setting methods convert at call '
+        'time: mutating the copy or an argument object afterwards must leave the response alone',
+        'resp.text accepts every string-like object offering encode() (str subclass, UserString, lazy string) and '
+        'bytes, as all three copies of the rendering logic implement by EAFP; the body is the UTF-8 of its value',
         'byte-string statuses (line or bare code) are accepted input (falcon\'s suite assigns resp.status = b\'200 OK\'); '
         'other spellings int() would accept (float, signs, underscores, whitespace) are not generated',
         'read() of an ASYNC file-like may answer None (no data yet, io.RawIOBase convention; falcon normalises it to an '
@@ -1627,7 +1847,7 @@ def run(rec):
     idx = 0
     for stack in ('wsgi', 'asgi'):
         for gen in (grid_cases(stack), falsy_cases(stack), decor_cases(stack), fault_cases(stack, big=not quick),
-                    render_fail_cases(stack), history_cases(stack)):
+                    render_fail_cases(stack), history_cases(stack), late_cases(stack), text_object_cases(stack)):
             for r in gen:
                 idx += 1
                 if idx % rec.nshards != rec.shard:
@@ -1684,7 +1904,7 @@ def run(rec):
         rec.floor('rc.' + rc, 50)
     for via in ('responder', 'mw', 'sink'):
         rec.floor('via.' + via, 20)
-    for sk in ('int', 'line', 'digits', 'enum', 'bytes'):
+    for sk in ('int', 'line', 'digits', 'enum', 'bytes', 'strsub'):
         rec.floor('status_kind.' + sk, 50)
     rec.floor('random.cases', 200)
     rec.floor('prerender', 20)
@@ -1696,6 +1916,11 @@ def run(rec):
                 rec.floor('render_fail.%s.%s.%s' % (stack, cause, cl), 4)
     rec.floor('mon.render_fail.content_length_equals_body', 100)
     rec.floor('streamed.asgi.read_answered_none', 50)
+    rec.floor('mon.late_ops_leave_response_alone', 500)
+    for t in TEXT_AS:
+        for stack in ('wsgi', 'asgi'):
+            for rc in RESP_CLASSES:
+                rec.floor('text_as.%s.%s.%s' % (t, stack, rc), 10)
     rec.floor('history.with_render', 500)
     rec.floor('history.render_calls', 500)
     rec.floor('sse.disconnect.truncated', 10)
